@@ -2,11 +2,13 @@
 
 package main
 
+import "fmt"
+
 func init() { props["C06"] = runC06 }
 
 func runC06(c *caseWriter) (string, bool, map[string]int) {
 	quick := tier != "thorough"
 	genPropHistories(c, "hist06", quick)
 	genHistories(c, quick)
-	return "API histories over a pool of 61 definition texts (helpers shared between callers in different contexts, context-opening helpers, failing/recursive/undefined/empty callees, break/continue, predefined escapers): every pool set with every order and repetition of executing two of its members, clone / late-parse scenarios, and random histories of 4-12 ops (New, t.New, Parse, Clone, Lookup, Execute, ExecuteTemplate, Templates/DefinedTemplates/Name, CSPCompatible) weighted towards doing something after an execution; every exec op is also run on a fresh set with the same definitions and on the projection of the history to its own name space; non-trivial = the history executes a template", false, nil
+	return fmt.Sprintf("API histories over a pool of %d definition texts", len(defPool)) + " (helpers shared between callers in different contexts, context-opening helpers, failing/recursive/undefined/empty callees, break/continue, predefined escapers): every pool set with every order and repetition of executing two of its members, clone / late-parse scenarios, and random histories of 4-12 ops (New, t.New, Parse, Clone, Lookup, Execute, ExecuteTemplate, Templates/DefinedTemplates/Name, CSPCompatible) weighted towards doing something after an execution; every exec op is also run on a fresh set with the same definitions and on the projection of the history to its own name space; non-trivial = the history executes a template", false, nil
 }
